@@ -940,21 +940,21 @@ define(globals(), 'C01', 'svc_generic_service_code', ['svc', 'c', 'i', 'd0', 'd1
 
 
 # ---- Multiple Service Packet: offsets --------------------------------------------------------------------------------------------------
-def do_msp_request(name, elm, elements, v0, n2):
+def do_msp_request(name, elm, elements, v0, n2, typ=0xc3):
     """bundle of [Read Tag Fragmented, Write Tag INT, Read Tag] with symbolic member lengths (name length, values)"""
     r1 = cpppo.dotdict()
     r1.path = tpath(name, elm)
     r1.read_frag = {'elements': elements, 'offset': 0}
     r2 = cpppo.dotdict()
     r2.path = {'segment': [cpppo.dotdict(symbolic='A')]}
-    r2.write_tag = {'type': 0xc3, 'data': [v0] * n2}
+    r2.write_tag = {'type': typ, 'data': [v0] * n2}
     r3 = cpppo.dotdict()
     r3.path = {'segment': [cpppo.dotdict(symbolic='A')]}
     r3.read_tag = {'elements': 1}
     d = cpppo.dotdict()
     d.multiple = {'request': [r1, r2, r3]}
     m1 = ref.read_frag([{'symbolic': name}, {'element': elm}], elements, 0)
-    m2 = ref.write_tag([{'symbolic': 'A'}], 0xc3, [v0] * n2)
+    m2 = ref.write_tag([{'symbolic': 'A'}], typ, [v0] * n2)
     m3 = ref.read_tag([{'symbolic': 'A'}], 1)
     exp = ref.multiple([m1, m2, m3])
     b = logix.Logix.produce(d)
@@ -989,6 +989,15 @@ for _nl in (1, 2, 3):
                    bounds='Multiple Service Packet request of 3 members [Read Tag Fragmented (name of %d arbitrary chars, %d-bit element), Write Tag of %d '
                           'INT value(s), Read Tag]: offsets = 2+2N then + previous length; parse recovers every member; reproduce' % (_nl, _w, _n2),
                    outside='more than 3 members; zero-element typed data (not parseable by typed_data)')
+
+for _n2 in (1, 3):
+    define(globals(), 'C01', 'msp_request_odd_member_sint%d' % _n2, ['c0', 'elm', 'elements', 'v0'],
+           "return do_msp_request(chr(c0), elm, elements, v0, %d, 0xc2)" % _n2,
+           [inr(['c0']), '0 <= elm <= 255 and 0 <= elements <= 0xFFFF and -128 <= v0 <= 127'],
+           timeout=1200, path_timeout=300,
+           drives=SVC_DRIVES + ['cpppo.server.enip.device.Message_Router.produce', 'cpppo.server.enip.device.state_multiple_service.terminate', 'cpppo.automata.dfa_post'],
+           bounds='Multiple Service Packet request whose middle member has an ODD encoded length (Write Tag of %d SINT): members are packed without padding, '
+                  'offsets = 2+2N then + previous length; parse recovers every member; reproduce' % _n2, outside='more than 3 members')
 
 
 def do_msp_reply(s1, v0, v1, s2, ext, n):
